@@ -40,24 +40,6 @@ theorem lookup_dictSet_ne {κ ν} [BEq κ] [LawfulBEq κ] [DecidableEq κ] (d : 
 
 /-! ### the pure specification and the parent namespace -/
 
-theorem classMeta_declared (d : ClassDef) (v : Option Str) (h : d.ns = some v) (p p' : Option Str) :
-    classMeta d p = classMeta d p' := by
-  unfold classMeta
-  simp [h]
-
-/-- a class that declares `Meta.namespace` has the same metadata under every parent namespace -/
-theorem pureBuild_insensitive (U : Universe) (c : ClassId) (h : nsSensitive U c = false)
-    (p p' : Option Str) : pureBuild U c p = pureBuild U c p' := by
-  unfold nsSensitive at h
-  unfold pureBuild
-  cases hd : U.get? c with
-  | none => rfl
-  | some d =>
-    simp [hd] at h
-    cases hn : d.ns with
-    | none => simp [hn] at h
-    | some v => simp [classMeta_declared d v hn p p']
-
 /-- whether `build` fails never depends on the parent namespace -/
 theorem pureBuild_error_indep (U : Universe) (c : ClassId) (p p' : Option Str) (e : Err)
     (h : pureBuild U c p = .error e) : pureBuild U c p' = .error e := by
@@ -81,12 +63,12 @@ theorem pureBuild_ok_cls (U : Universe) (c : ClassId) (p : Option Str) (m : Meta
 
 /-! ### the invariant -/
 
-/-- every cached meta is the cache-free meta for *some* request made since the
-last reset; the index, if stamped, is the cache-free index of a world seen
-since then -/
+/-- every cached meta is the cache-free meta of its key `(class, parent_ns)`; the
+index, if stamped, is (related to) the cache-free index of a world seen since the
+last reset -/
 structure InvR (R : List (Str × List ClassId) → List (Str × List ClassId) → Prop)
     (U : Universe) (t : Track) (s : State) : Prop where
-  cache : ∀ c m, s.cache.lookup c = some m → ∃ p, (c, p) ∈ t.uses ∧ pureBuild U c p = .ok m
+  cache : ∀ c p m, s.cache.lookup (c, p) = some m → pureBuild U c p = .ok m
   xsi : s.sysModules = 0 ∨ ∃ w ∈ t.worlds, s.sysModules = w.mods + 1 ∧ R s.xsi (pureIndex U w.loaded)
 
 /-- the strong invariant: the stamped index *is* the cache-free index.  (`InvR`
@@ -95,50 +77,29 @@ see `Proofs/CtxEvict.lean`.) -/
 abbrev Inv := InvR (@Eq (List (Str × List ClassId)))
 
 theorem InvR.init {R} (U : Universe) (t : Track) : InvR R U t State.init :=
-  ⟨by intro c m h; simp [State.init, List.lookup] at h, Or.inl rfl⟩
+  ⟨by intro c p m h; simp [State.init, List.lookup] at h, Or.inl rfl⟩
 
 theorem Inv.init (U : Universe) (t : Track) : Inv U t State.init := InvR.init U t
 
 theorem InvR.mono {R} {U : Universe} {t t' : Track} {s : State} (h : InvR R U t s)
-    (hu : ∀ u ∈ t.uses, u ∈ t'.uses) (hw : ∀ w ∈ t.worlds, w ∈ t'.worlds) : InvR R U t' s := by
-  refine ⟨?_, ?_⟩
-  · intro c m hl
-    obtain ⟨p, hp, hb⟩ := h.cache c m hl
-    exact ⟨p, hu _ hp, hb⟩
-  · cases h.xsi with
-    | inl h0 => exact Or.inl h0
-    | inr h1 =>
-      obtain ⟨w, hw1, hw2⟩ := h1
-      exact Or.inr ⟨w, hw _ hw1, hw2⟩
+    (hw : ∀ w ∈ t.worlds, w ∈ t'.worlds) : InvR R U t' s := by
+  refine ⟨h.cache, ?_⟩
+  cases h.xsi with
+  | inl h0 => exact Or.inl h0
+  | inr h1 =>
+    obtain ⟨w, hw1, hw2⟩ := h1
+    exact Or.inr ⟨w, hw _ hw1, hw2⟩
 
-theorem consistent_sub {U : Universe} {us us' : List Use} (h : consistent U us')
-    (hs : ∀ u ∈ us, u ∈ us') : consistent U us := by
-  intro a ha b hb
-  exact h a (hs a ha) b (hs b hb)
-
-/-- a cached meta equals the cache-free meta of the current request -/
-theorem cached_eq_pure {R} {U : Universe} {t : Track} {s : State} (hI : InvR R U t s)
-    (hc : consistent U t.uses) {c : ClassId} {p : Option Str} (hu : (c, p) ∈ t.uses)
-    {m : Meta} (hl : s.cache.lookup c = some m) : pureBuild U c p = .ok m := by
-  obtain ⟨p0, hp0, hb⟩ := hI.cache c m hl
-  by_cases hs : nsSensitive U c = true
-  · have := hc (c, p0) hp0 (c, p) hu rfl hs
-    simp at this
-    subst this
-    exact hb
-  · have hs' : nsSensitive U c = false := by simpa using hs
-    rw [pureBuild_insensitive U c hs' p p0]
-    exact hb
-
-/-- **`build` refines the specification** -/
+/-- **`build` refines the specification** — unconditionally since the cache is
+keyed by `(class, parent_ns)` -/
 theorem doBuild_spec {R} {U : Universe} {t : Track} {s : State} (hI : InvR R U t s)
-    (hc : consistent U t.uses) {c : ClassId} {p : Option Str} (hu : (c, p) ∈ t.uses) :
+    (c : ClassId) (p : Option Str) :
     ∃ s', doBuild U s c p = (s', pureBuild U c p) ∧ InvR R U t s' ∧ s'.xsi = s.xsi ∧
-      s'.sysModules = s.sysModules ∧ (∀ m, pureBuild U c p = .ok m → s'.cache.lookup c = some m) := by
+      s'.sysModules = s.sysModules ∧ (∀ m, pureBuild U c p = .ok m → s'.cache.lookup (c, p) = some m) := by
   unfold doBuild
-  cases hl : s.cache.lookup c with
+  cases hl : s.cache.lookup (c, p) with
   | some m =>
-    have hb := cached_eq_pure hI hc hu hl
+    have hb := hI.cache c p m hl
     refine ⟨s, by simp [hb], hI, rfl, rfl, ?_⟩
     intro m' hm'
     rw [hb] at hm'
@@ -148,15 +109,15 @@ theorem doBuild_spec {R} {U : Universe} {t : Track} {s : State} (hI : InvR R U t
     cases hb : pureBuild U c p with
     | error e => exact ⟨s, by simp, hI, rfl, rfl, by intro m hm; cases hm⟩
     | ok m =>
-      refine ⟨{ s with cache := dictSet s.cache c m }, by simp, ⟨?_, hI.xsi⟩, rfl, rfl, ?_⟩
-      · intro c' m' hl'
-        by_cases hcc : c' = c
-        · subst hcc
+      refine ⟨{ s with cache := dictSet s.cache (c, p) m }, by simp, ⟨?_, hI.xsi⟩, rfl, rfl, ?_⟩
+      · intro c' p' m' hl'
+        by_cases hcc : (c', p') = (c, p)
+        · cases hcc
           simp [lookup_dictSet_self] at hl'
           subst hl'
-          exact ⟨p, hu, hb⟩
+          exact hb
         · simp [lookup_dictSet_ne _ _ _ _ hcc] at hl'
-          exact hI.cache c' m' hl'
+          exact hI.cache c' p' m' hl'
       · intro m' hm'
         cases hm'
         simp [lookup_dictSet_self]
@@ -200,11 +161,9 @@ theorem doFindSubclass_spec {U : Universe} {t : Track} {s : State} (hI : Inv U t
 
 /-- **`fetch` refines the specification** -/
 theorem doFetch_spec {U : Universe} {t : Track} {s : State} (hI : Inv U t s) {w : World}
-    (hw : w ∈ t.worlds) (hf : faithful t.worlds) (hc : consistent U t.uses)
-    {c : ClassId} {p xsi : Option Str} (hu : ∀ u ∈ opUses U w (.fetch c p xsi), u ∈ t.uses) :
+    (hw : w ∈ t.worlds) (hf : faithful t.worlds) (c : ClassId) (p xsi : Option Str) :
     (doFetch U w s c p xsi).2 = pureFetch U w c p xsi ∧ Inv U t (doFetch U w s c p xsi).1 := by
-  have hu0 : (c, p) ∈ t.uses := hu _ (by simp [opUses])
-  obtain ⟨s1, hb1, hI1, _, _, _⟩ := doBuild_spec hI hc hu0
+  obtain ⟨s1, hb1, hI1, _, _, _⟩ := doBuild_spec hI c p
   unfold doFetch pureFetch
   rw [hb1]
   cases hb : pureBuild U c p with
@@ -225,10 +184,7 @@ theorem doFetch_spec {U : Universe} {t : Track} {s : State} (hI : Inv U t s) {w 
           rw [← hsub, ← hs1]
         rw [this]
         simp only
-        have hus : (sub, p) ∈ t.uses := by
-          apply hu
-          simp [opUses, pureSub, hb, hx, hsub]
-        obtain ⟨s3, hb3, hI3, _⟩ := doBuild_spec hs2 hc hus
+        obtain ⟨s3, hb3, hI3, _⟩ := doBuild_spec hs2 sub p
         rw [hb3]
         exact ⟨rfl, hI3⟩
     · rw [if_neg hx, if_neg hx]
@@ -236,15 +192,14 @@ theorem doFetch_spec {U : Universe} {t : Track} {s : State} (hI : Inv U t s) {w 
 
 /-- **`local_names_match` refines the specification** (outside the eviction path) -/
 theorem doLocalNamesMatch_spec {R} {U : Universe} {t : Track} {s : State} (hI : InvR R U t s)
-    (hc : consistent U t.uses) {c : ClassId} (hu : (c, none) ∈ t.uses)
-    (hne : buildable U c = true ∨ indexKey U c = none) (names : List Str) :
+    {c : ClassId} (hne : buildable U c = true ∨ indexKey U c = none) (names : List Str) :
     ∃ s', doLocalNamesMatch U s names c =
         (s', .ok (match pureBuild U c none with
           | .ok m => namesMatch names m
           | .error _ => false)) ∧
       InvR R U t s' ∧ s'.xsi = s.xsi ∧ s'.sysModules = s.sysModules ∧
-      (∀ m, pureBuild U c none = .ok m → s'.cache.lookup c = some m) := by
-  obtain ⟨s1, hb1, hI1, hx1, hm1, hl1⟩ := doBuild_spec hI hc hu
+      (∀ m, pureBuild U c none = .ok m → s'.cache.lookup (c, none) = some m) := by
+  obtain ⟨s1, hb1, hI1, hx1, hm1, hl1⟩ := doBuild_spec hI c none
   unfold doLocalNamesMatch
   rw [hb1]
   cases hb : pureBuild U c none with
@@ -265,46 +220,46 @@ theorem buildable_ok {U : Universe} {c : ClassId} (h : buildable U c = true) :
   | error e => simp [hb] at h
 
 /-- the inner loop of `find_type_by_fields` when nothing is evicted -/
-theorem scanTypes_spec {U : Universe} {t : Track} (hc : consistent U t.uses) (names : List Str) :
+theorem scanTypes_spec {U : Universe} {t : Track} (names : List Str) :
     ∀ (l : List ClassId) (s : State) (acc : List Choice), Inv U t s →
-      (∀ c ∈ l, buildable U c = true) → (∀ c ∈ l, (c, none) ∈ t.uses) →
+      (∀ c ∈ l, buildable U c = true) →
       ∃ s', scanTypes U names l s acc = (s', .ok (acc ++ l.filterMap (choiceOf U names))) ∧
         Inv U t s' ∧ s'.xsi = s.xsi ∧ s'.sysModules = s.sysModules := by
   intro l
   induction l with
-  | nil => intro s acc hI _ _; exact ⟨s, by simp [scanTypes], hI, rfl, rfl⟩
+  | nil => intro s acc hI _; exact ⟨s, by simp [scanTypes], hI, rfl, rfl⟩
   | cons c rest ih =>
-    intro s acc hI hb hu
+    intro s acc hI hb
     have hbc := hb c List.mem_cons_self
     obtain ⟨m, hm⟩ := buildable_ok hbc
     obtain ⟨s1, hr1, hI1, hx1, hm1, hl1⟩ :=
-      doLocalNamesMatch_spec hI hc (hu c List.mem_cons_self) (Or.inl hbc) names
+      doLocalNamesMatch_spec hI (Or.inl hbc) names
     obtain ⟨d, hd⟩ := pureBuild_ok_cls U c none m hm
     unfold scanTypes
     rw [hr1, hm]
     dsimp only
     have hb' : ∀ c' ∈ rest, buildable U c' = true := fun c' h => hb c' (List.mem_cons_of_mem _ h)
-    have hu' : ∀ c' ∈ rest, (c', none) ∈ t.uses := fun c' h => hu c' (List.mem_cons_of_mem _ h)
     cases hnm : namesMatch names m with
     | false =>
       dsimp only
-      obtain ⟨s2, hr2, hI2, hx2, hm2⟩ := ih s1 acc hI1 hb' hu'
+      obtain ⟨s2, hr2, hI2, hx2, hm2⟩ := ih s1 acc hI1 hb'
       refine ⟨s2, ?_, hI2, by rw [hx2, hx1], by rw [hm2, hm1]⟩
       rw [hr2]
       simp [choiceOf, hm, hd, hnm]
     | true =>
-      simp only [hl1 m hm, hd]
+      have hdb : doBuild U s1 c none = (s1, .ok m) := by simp [doBuild, hl1 m hm]
+      simp only [hdb, hd]
       obtain ⟨s2, hr2, hI2, hx2, hm2⟩ :=
-        ih s1 (acc ++ [(c, (fieldDiff names m, d.name))]) hI1 hb' hu'
+        ih s1 (acc ++ [(c, (fieldDiff names m, d.name))]) hI1 hb'
       refine ⟨s2, ?_, hI2, by rw [hx2, hx1], by rw [hm2, hm1]⟩
       rw [hr2]
       simp [choiceOf, hm, hd, hnm]
 
 /-- the outer loop -/
-theorem scanKeys_spec {U : Universe} {t : Track} (hc : consistent U t.uses) (names : List Str)
+theorem scanKeys_spec {U : Universe} {t : Track} (names : List Str)
     (idx : List (Str × List ClassId)) :
     ∀ (ks : List Str) (s : State) (acc : List Choice), Inv U t s → s.xsi = idx →
-      (∀ k ∈ ks, ∀ c ∈ (idx.lookup k).getD [], buildable U c = true ∧ (c, none) ∈ t.uses) →
+      (∀ k ∈ ks, ∀ c ∈ (idx.lookup k).getD [], buildable U c = true) →
       ∃ s', scanKeys U names ks s acc =
           (s', .ok (acc ++ (ks.flatMap fun k => (idx.lookup k).getD []).filterMap (choiceOf U names))) ∧
         Inv U t s' ∧ s'.xsi = idx ∧ s'.sysModules = s.sysModules := by
@@ -318,8 +273,7 @@ theorem scanKeys_spec {U : Universe} {t : Track} (hc : consistent U t.uses) (nam
     unfold scanKeys
     have hk := hall k List.mem_cons_self
     obtain ⟨s1, hr1, hI1, hx1, hm1⟩ :=
-      scanTypes_spec hc names ((idx.lookup k).getD []) s acc hI
-        (fun c hc' => (hk c hc').1) (fun c hc' => (hk c hc').2)
+      scanTypes_spec names ((idx.lookup k).getD []) s acc hI hk
     rw [hx, hr1]
     dsimp only
     obtain ⟨s2, hr2, hI2, hx2, hm2⟩ :=
@@ -331,142 +285,81 @@ theorem scanKeys_spec {U : Universe} {t : Track} (hc : consistent U t.uses) (nam
 
 /-- **`find_type_by_fields` refines the specification** (when every indexed class is buildable) -/
 theorem doFindTypeByFields_spec {U : Universe} {t : Track} {s : State} (hI : Inv U t s) {w : World}
-    (hw : w ∈ t.worlds) (hf : faithful t.worlds) (hc : consistent U t.uses) (names : List Str)
-    (hu : ∀ u ∈ opUses U w (.findTypeByFields names), u ∈ t.uses)
+    (hw : w ∈ t.worlds) (hf : faithful t.worlds) (names : List Str)
     (hne : noEvict U w (.findTypeByFields names)) :
     ∃ s', doFindTypeByFields U w s names = (s', .ok (pureFields U w names)) ∧ Inv U t s' := by
   obtain ⟨h1, _, _, h4⟩ := doBuildXsi_spec hI hw hf
   unfold doFindTypeByFields
   have hall : ∀ k ∈ (pureIndex U w.loaded).map (·.1), ∀ c ∈ ((pureIndex U w.loaded).lookup k).getD [],
-      buildable U c = true ∧ (c, none) ∈ t.uses := by
+      buildable U c = true := by
     intro k hk c hcm
     have hmem : c ∈ indexedClasses (pureIndex U w.loaded) := by
       unfold indexedClasses
       exact List.mem_flatMap.mpr ⟨k, hk, hcm⟩
-    refine ⟨hne c hmem, hu _ ?_⟩
-    simp only [opUses]
-    exact List.mem_map.mpr ⟨c, hmem, rfl⟩
+    exact hne c hmem
   obtain ⟨s2, hr2, hI2, _, _⟩ :=
-    scanKeys_spec hc names (pureIndex U w.loaded) ((pureIndex U w.loaded).map (·.1))
+    scanKeys_spec names (pureIndex U w.loaded) ((pureIndex U w.loaded).map (·.1))
       (doBuildXsi U w s) [] h4 h1 hall
   simp only [h1]
   rw [hr2]
   exact ⟨s2, by simp [pureFields, indexedClasses], hI2⟩
 
-
-/-- the requests collected by the cache-free walk only grow -/
-theorem serWalk_pure_mono (U : Universe) : ∀ (toks : List Tok) (us : List Use) (fs : List Frame)
-    (out : List Str), ∀ u ∈ us,
-    u ∈ (serWalk (σ := List Use) (fun us c p => (us ++ [(c, p)], pureBuild U c p)) toks us fs out).1 := by
-  intro toks
-  induction toks with
-  | nil => intro us fs out u hu; simpa [serWalk] using hu
-  | cons tk rest ih =>
-    intro us fs out u hu
-    cases tk with
-    | enter i c =>
-      cases fs with
-      | nil =>
-        simp only [serWalk]
-        cases hb : pureBuild U c none with
-        | error e => simp; exact Or.inl hu
-        | ok m => exact ih _ _ _ u (List.mem_append_left _ hu)
-      | cons f fs =>
-        simp only [serWalk]
-        cases hv : f.vars[i]? with
-        | none => simpa using hu
-        | some v =>
-          simp only
-          cases hb : pureBuild U c f.ns with
-          | error e => simp; exact Or.inl hu
-          | ok m => exact ih _ _ _ u (List.mem_append_left _ hu)
-    | leaf i =>
-      cases fs with
-      | nil => simp only [serWalk]; exact ih _ _ _ u hu
-      | cons f fs =>
-        simp only [serWalk]
-        cases hv : f.vars[i]? with
-        | none => simpa using hu
-        | some v => exact ih _ _ _ u hu
-    | leave => simp only [serWalk]; exact ih _ _ _ u hu
-
 /-- **the serializer's walk on a shared context simulates the cache-free walk** -/
-theorem serWalk_sim {R} {U : Universe} {t : Track} (hc : consistent U t.uses) :
+theorem serWalk_sim {R} {U : Universe} {t : Track} :
     ∀ (toks : List Tok) (s : State) (us : List Use) (fs : List Frame) (out : List Str),
       InvR R U t s →
-      (∀ u ∈ (serWalk (σ := List Use) (fun us c p => (us ++ [(c, p)], pureBuild U c p)) toks us fs out).1,
-        u ∈ t.uses) →
       (serWalk (fun s c p => doBuild U s c p) toks s fs out).2 =
         (serWalk (σ := List Use) (fun us c p => (us ++ [(c, p)], pureBuild U c p)) toks us fs out).2 ∧
       InvR R U t (serWalk (fun s c p => doBuild U s c p) toks s fs out).1 := by
   intro toks
   induction toks with
-  | nil => intro s us fs out hI _; exact ⟨rfl, hI⟩
+  | nil => intro s us fs out hI; exact ⟨rfl, hI⟩
   | cons tk rest ih =>
-    intro s us fs out hI hsub
+    intro s us fs out hI
     cases tk with
     | enter i c =>
       cases fs with
       | nil =>
-        simp only [serWalk] at hsub ⊢
-        have hmem : (c, none) ∈ t.uses := by
-          apply hsub
-          cases hb : pureBuild U c none with
-          | error e => simp
-          | ok m => exact serWalk_pure_mono U _ _ _ _ _ (by simp)
-        obtain ⟨s', hb', hI', _⟩ := doBuild_spec hI hc hmem
+        simp only [serWalk]
+        obtain ⟨s', hb', hI', _⟩ := doBuild_spec hI c none
         rw [hb']
         cases hb : pureBuild U c none with
         | error e => exact ⟨rfl, hI'⟩
-        | ok m =>
-          simp only [hb] at hsub
-          exact ih _ _ _ _ hI' hsub
+        | ok m => exact ih _ _ _ _ hI'
       | cons f fs =>
-        simp only [serWalk] at hsub ⊢
+        simp only [serWalk]
         cases hv : f.vars[i]? with
         | none => exact ⟨rfl, hI⟩
         | some v =>
-          simp only [hv] at hsub ⊢
-          have hmem : (c, f.ns) ∈ t.uses := by
-            apply hsub
-            cases hb : pureBuild U c f.ns with
-            | error e => simp
-            | ok m => exact serWalk_pure_mono U _ _ _ _ _ (by simp)
-          obtain ⟨s', hb', hI', _⟩ := doBuild_spec hI hc hmem
+          simp only
+          obtain ⟨s', hb', hI', _⟩ := doBuild_spec hI c f.ns
           rw [hb']
           cases hb : pureBuild U c f.ns with
           | error e => exact ⟨rfl, hI'⟩
-          | ok m =>
-            simp only [hb] at hsub
-            exact ih _ _ _ _ hI' hsub
+          | ok m => exact ih _ _ _ _ hI'
     | leaf i =>
       cases fs with
-      | nil => simp only [serWalk] at hsub ⊢; exact ih _ _ _ _ hI hsub
+      | nil => simp only [serWalk]; exact ih _ _ _ _ hI
       | cons f fs =>
-        simp only [serWalk] at hsub ⊢
+        simp only [serWalk]
         cases hv : f.vars[i]? with
         | none => exact ⟨rfl, hI⟩
-        | some v =>
-          simp only [hv] at hsub ⊢
-          exact ih _ _ _ _ hI hsub
-    | leave => simp only [serWalk] at hsub ⊢; exact ih _ _ _ _ hI hsub
+        | some v => exact ih _ _ _ _ hI
+    | leave => simp only [serWalk]; exact ih _ _ _ _ hI
 
 /-- **One call refines the cache-free specification and keeps the invariant.** -/
 theorem step_spec {U : Universe} {t : Track} {s : State} (hI : Inv U t s) {w : World} {op : Op}
     (hok : okStep U t w op) :
-    (step U w s op).2 = pureOut U w op ∧ Inv U (t.next U w op) (step U w s op).1 := by
-  obtain ⟨hc, hf, hne⟩ := hok
-  have hI1 : Inv U ⟨t.uses ++ opUses U w op, w :: t.worlds⟩ s :=
-    hI.mono (fun u hu => List.mem_append_left _ hu) (fun w' hw' => List.mem_cons_of_mem _ hw')
-  have hw : w ∈ (⟨t.uses ++ opUses U w op, w :: t.worlds⟩ : Track).worlds := List.mem_cons_self
-  have hus : ∀ u ∈ opUses U w op, u ∈ (⟨t.uses ++ opUses U w op, w :: t.worlds⟩ : Track).uses :=
-    fun u hu => List.mem_append_right _ hu
+    (step U w s op).2 = pureOut U w op ∧ Inv U (t.next w op) (step U w s op).1 := by
+  obtain ⟨hf, hne⟩ := hok
+  have hI1 : Inv U ⟨w :: t.worlds⟩ s := hI.mono (fun w' hw' => List.mem_cons_of_mem _ hw')
+  have hw : w ∈ (⟨w :: t.worlds⟩ : Track).worlds := List.mem_cons_self
   cases op with
   | build c p =>
-    obtain ⟨s', hb, hI', _⟩ := doBuild_spec hI1 hc (hus (c, p) (by simp [opUses]))
+    obtain ⟨s', hb, hI', _⟩ := doBuild_spec hI1 c p
     simp [step, pureOut, hb, Track.next, hI']
   | fetch c p x =>
-    obtain ⟨h1, h2⟩ := doFetch_spec hI1 hw hf hc (c := c) (p := p) (xsi := x) hus
+    obtain ⟨h1, h2⟩ := doFetch_spec hI1 hw hf c p x
     simp only [step, pureOut, Track.next]
     rw [if_neg (by simp)]
     exact ⟨by rw [← h1], h2⟩
@@ -486,13 +379,12 @@ theorem step_spec {U : Universe} {t : Track} {s : State} (hI : Inv U t s) {w : W
     rw [if_neg (by simp)]
     exact ⟨by rw [← h1], h2⟩
   | findTypeByFields names =>
-    obtain ⟨s', h1, h2⟩ := doFindTypeByFields_spec hI1 hw hf hc names hus hne
+    obtain ⟨s', h1, h2⟩ := doFindTypeByFields_spec hI1 hw hf names hne
     simp only [step, pureOut, Track.next, h1]
     rw [if_neg (by simp)]
     exact ⟨trivial, h2⟩
   | localNamesMatch names c =>
-    obtain ⟨s', h1, h2, _⟩ :=
-      doLocalNamesMatch_spec hI1 hc (hus (c, none) (by simp [opUses])) hne names
+    obtain ⟨s', h1, h2, _⟩ := doLocalNamesMatch_spec hI1 hne names
     simp only [step, pureOut, Track.next, h1]
     rw [if_neg (by simp)]
     refine ⟨?_, h2⟩
@@ -506,8 +398,7 @@ theorem step_spec {U : Universe} {t : Track} {s : State} (hI : Inv U t s) {w : W
     simp only [step, pureOut, Track.next]
     exact ⟨trivial, Inv.init U _⟩
   | serialize toks =>
-    obtain ⟨h1, h2⟩ := serWalk_sim hc toks s [] [] [] hI1
-      (fun u hu => hus u (by simpa [opUses, serUses, pureSerialize] using hu))
+    obtain ⟨h1, h2⟩ := serWalk_sim toks s [] [] [] hI1
     simp only [step, pureOut, Track.next]
     rw [if_neg (by simp)]
     unfold Xs.Ctx.serialize pureSerialize
@@ -525,7 +416,7 @@ theorem run_inv {U : Universe} : ∀ (h : List (World × Op)) (t : Track) (s : S
   | (w, op) :: rest, t, s, hI, hh => by
     obtain ⟨hok, hrest⟩ := hh
     obtain ⟨_, hI'⟩ := step_spec hI hok
-    obtain ⟨t', hI'', hnext⟩ := run_inv rest (t.next U w op) (step U w s op).1 hI' hrest
+    obtain ⟨t', hI'', hnext⟩ := run_inv rest (t.next w op) (step U w s op).1 hI' hrest
     refine ⟨t', hI'', ?_⟩
     intro w' op' hh'
     exact hnext w' op' hh'.2
@@ -542,8 +433,8 @@ theorem histOK_last {U : Universe} : ∀ (h : List (World × Op)) (t : Track) (w
 
 theorem okStep_empty {U : Universe} {t : Track} {w : World} {op : Op} (h : okStep U t w op) :
     okStep U Track.empty w op := by
-  obtain ⟨hc, _, hne⟩ := h
-  refine ⟨consistent_sub hc (by intro u hu; simpa [Track.empty] using Or.inr hu), ?_, hne⟩
+  obtain ⟨_, hne⟩ := h
+  refine ⟨?_, hne⟩
   intro a ha b hb _
   simp [Track.empty] at ha hb
   rw [ha, hb]
